@@ -153,7 +153,7 @@ func InRepoOf(p *Prog, fn *ssa.Function) bool {
 
 // C17 — evolution is reproducible from the seed.
 func C17(p *Prog, r *Run) {
-	r.Explanation = "Bit-for-bit reproducibility cannot be decided statically; decided is the absence, in every repository function reachable over the VTA call graph from NewPopulation, NewPopulationRandom, ReadPopulation and SequentialPopulationEpochExecutor.NextEpoch, of the only mechanisms that can break it: iteration over a map, goroutines, channel operations, select other than the non-blocking ctx.Done() test, pointer-to-integer conversions, writes to package-level variables, reads of package-level variables outside a fixed list of constants (log level and loggers, the activation registry, the context key, error sentinels), and calls into any external function outside an allow-list of deterministic packages (math/rand only through top-level draws from the seeded global source; no time, os, runtime, reflect, crypto/rand). One obligation per reachable function. A fixture package with a map range behind a call must be reported on every run. Not decided: that no other conceivable source exists; determinism of the fitness function (a premise of the property)."
+	r.Explanation = "Bit-for-bit reproducibility cannot be decided statically; decided is the absence, in every repository function reachable over the VTA call graph from NewPopulation, NewPopulationRandom, ReadPopulation and SequentialPopulationEpochExecutor.NextEpoch, of the only mechanisms that can break it: iteration over a map, goroutines, channel operations, select other than the non-blocking ctx.Done() test, pointer-to-integer conversions, writes to package-level variables, reads of package-level variables outside a fixed list of constants (log level and loggers, the activation registry, the context key, error sentinels), and calls into any external function outside an allow-list of deterministic packages (math/rand only through top-level draws from the seeded global source; no time, os, runtime, reflect, crypto/rand). One obligation per reachable function. A fixture package with a map range behind a call must be reported on every run. Three history rules cover \"earlier unrelated work in the process\": (C17.4) an information-flow analysis with the single source neat.LogLevel shows that branches depending on the logger level control only message formatting and logger calls (control regions from post-dominators, implicit flows through phis, results of calls, effect-free callees from the write-through facts); (C17.5) the population constructors write nothing through the start genome, organisms are built around duplicates, and the duplicate shares no memory with its source (alias obligations shared with C06.1-C06.3); (C17.6) no reachable function writes a field of neat.Options or an element of a list it holds, and the roots have no write-through fact through their options/context arguments - so nothing memoised in an input object survives a run. Not decided: state kept in the executor object between epochs (bestSpeciesReproduced is never reset in the pinned tree); that no other conceivable source exists; determinism of the fitness function (a premise of the property)."
 	roots := []*ssa.Function{p.Func(PkgG, "NewPopulation"), p.Func(PkgG, "NewPopulationRandom"), p.Func(PkgG, "ReadPopulation"),
 		p.Func(PkgG, "SequentialPopulationEpochExecutor.NextEpoch")}
 	allowGlobal := func(g *ssa.Global) bool {
@@ -255,6 +255,20 @@ func C17(p *Prog, r *Run) {
 			r.Check(ok, FuncName(fn), p.Pos(fn.Pos()), "pure comparison of element fields", "the comparison "+why+": the sort order may differ between runs")
 		}
 		r.Floor("reachable Less implementations", n, 2)
+	})
+
+	r.Rule("C17.4", "the logger level is not an input: in every function reachable from population construction and the sequential epoch a branch whose condition depends on the process-wide neat.LogLevel (directly, through a local, or through the result of a call) controls nothing but message formatting and logger calls - no store to memory that outlives the branch, no value defined under it that is merged into later code, no differing return, no call that writes state or draws a random number. Otherwise two runs with identical seed and inputs differ when earlier unrelated work (InitLogger, loading an options file) changed the level", func() {
+		re := p.Reachable(roots, nil)
+		r.c17LogLevel(re.RepoFuncsOf(p))
+	})
+
+	r.Rule("C17.5", "a run does not modify its inputs and keeps no reference into them: the population constructors write nothing through the start genome or the options they receive, every organism they create holds a genome produced by Genome.duplicate, and that duplicate shares no pointer, slice or map with its source (the alias obligations of C06.1-C06.3). Otherwise later mutations write into the caller's start genome and a second trial from the same genome object with the same seed evolves differently", func() {
+		r.c17InputsIntact()
+	})
+
+	r.Rule("C17.6", "the options are read-only on the evolution path: no function reachable from population construction and the sequential epoch stores to a field of neat.Options or into a list held by one, and the roots have no write-through fact through their options/context parameters. Otherwise (e.g. a value memoised in the options object) a run's outcome depends on what earlier runs did with the same options object", func() {
+		re := p.Reachable(roots, nil)
+		r.c17OptionsReadOnly(roots[:4], re.RepoFuncsOf(p))
 	})
 
 	r.Rule("C17.3", "positive fixture: the scanner reports a map range hidden behind a call", func() {
